@@ -70,6 +70,7 @@ def gen2(ctx, env, honest):
     r, add_, mk, k16, seqr, thorough = env
     cases = []
     add = lambda line, cell: cases.append((line, cell))
+    nhdr12, nhdr13 = [0], [0]
     for (line, out) in honest:
         w = line.split()
         if w[0] == "recenc" and not out.startswith("ERR"):
@@ -80,6 +81,14 @@ def gen2(ctx, env, honest):
             for pos, cls in [(0, "type"), (1, "version"), (2, "version")]:
                 e2 = bytearray(enc); e2[pos] ^= 1 << r.below(8)
                 add("recdec %s %s %s %s" % (m, k, s, e2.hex()), "recdec:flip:" + cls)
+            # every bit of all five header bytes (the first records; the length bytes are not an input of the
+            # direct call -- the buffer length is -- so the model accepts those: the live sweep covers them)
+            nhdr12[0] += 1
+            if nhdr12[0] <= (6 if not thorough else 40):
+                for pos in range(5):
+                    for bit in range(8):
+                        e2 = bytearray(enc); e2[pos] ^= 1 << bit
+                        add("recdec %s %s %s %s" % (m, k, s, e2.hex()), "recdec:header-bit:%s" % ("type", "version-major", "version-minor", "length", "length")[pos])
             # body: iv, first block, mac region, padding byte
             n = len(enc)
             for pos, cls in [(5, "iv"), (5 + 15, "iv"), (5 + 16, "body-first"), (n - 1, "last-byte"), (n - 17, "prev-block"), (n - 40, "mac-region")]:
@@ -111,6 +120,12 @@ def gen2(ctx, env, honest):
             enc = bytes.fromhex(out)
             n = len(enc)
             add("rdec13 %s %s %s %s" % (k, iv, s, out), "rdec13:honest")
+            nhdr13[0] += 1
+            if nhdr13[0] <= (6 if not thorough else 40):
+                for pos in range(5):
+                    for bit in range(8):
+                        e2 = bytearray(enc); e2[pos] ^= 1 << bit
+                        add("rdec13 %s %s %s %s" % (k, iv, s, e2.hex()), "rdec13:header-bit:%s" % ("type", "version-major", "version-minor", "length", "length")[pos])
             for pos, cls in [(5, "body-first"), (n - 1, "tag-last"), (n - 16, "tag-first"), (n - 17, "body-last")]:
                 if pos >= 5:
                     e2 = bytearray(enc); e2[pos] ^= 1 << r.below(8)
@@ -235,6 +250,13 @@ def gen_neigh(ctx, env):
         add("nb13 %s %s %s %s %d %d" % (k, iv12, s, rc13, pad, stride), "nb13:single-bit:%s" % ("exhaustive" if stride == 1 else "stride7"))
         add("tr13 %s %s %s %s %d 0" % (k, iv12, s, rc13, pad), "tr13:truncate-extend")
         add("sq13 %s %s %s %s %d %s" % (k, iv12, s, rc13, pad, ",".join("%016x" % x for x in others if x != sv)), "sq13:other-seq")
+    # concurrent use on disjoint objects: 2..4 threads protect and unprotect their own records (own keys, own
+    # sequence numbers, own buffers, per-thread entropy) at the same time; reference = the same work done one
+    # thread after the other; every ciphertext byte and every round trip must come out the same
+    for proto in (12, 13):
+        for T in (2, 3, 4):
+            for sd in range(2 if not thorough else 8):
+                add("par %d %d %d %d %d" % (proto, T, 100 * T + sd + ctx.seed % 1000, 80, 3), "par%d:threads=%d" % (proto, T))
     return cases
 
 
@@ -250,6 +272,7 @@ def live(ctx):
     if exe is None:
         core.harness_build_failed(ctx, log); return
     r = ctx.rng
+    thorough = ctx.tier == "thorough"
     fields = lambda line: dict(f.split("=", 1) for f in line.split(" ") if "=" in f)
     protos = ["tlcp", "tls12", "tls13"]
     seed = 31 + ctx.seed % 1000
@@ -289,7 +312,103 @@ def live(ctx):
                     cases.append(("fault %s 0 %d flip %d %d %d %d 0 %s" % (p, seed, d, i, ln - 1, r.below(8), pl), cellp + ":flip"))
                 for kind in ("drop", "dup", "swap"):
                     cases.append(("fault %s 0 %d %s %d %d 0 0 0 %s" % (p, seed, kind, d, i, pl), cellp + ":" + kind))
+    # ---- records of another content type than application data, authentic (protected with the connection's own keys
+    # and sequence numbers by the peer): ChangeCipherSpec, Alert, Handshake (for TLS 1.3: the inner type; e.g. a
+    # KeyUpdate), heartbeat / unknown types.  None of them may ever come out of tls_recv / tls13_recv as data, neither
+    # at once nor at a later call; the application messages around them arrive in order.  An unknown type is
+    # refused by unprotection itself (the sequence number then stays), so it is placed last.
+    typed = []
+    for p in protos:
+        for t, ln in ((20, 1), (21, 2), (22, 5), (22, 300)):
+            for spec in ("x%dt%d,16,16" % (ln, t), "x16,%dt%d,16" % (ln, t), "x16,16,%dt%d" % (ln, t)):
+                typed.append((p, spec, "known-type-%d" % t))
+        for t in (24, 99, 0, 255):
+            typed.append((p, "x16,16,4t%d" % t, "unknown-type"))
+        if p == "tls13":
+            typed += [(p, "x16,2:7t21,16", "known-type-21"), (p, "x16,5:255t22,16", "known-type-22"), (p, "16,2t21,16", "known-type-21")]
+    touts, _ = core.run_lines(exe, ["layout %s 0 %d %s" % (p, seed + 1, spec) for (p, spec, _) in typed], shards=12)
+    stalled = [i for i, o in enumerate(touts) if "pc=-99" in o and "ps=-99" in o]
+    if stalled:
+        again, _ = core.run_lines(exe, ["layout %s 0 %d %s" % (typed[i][0], seed + 1, typed[i][1]) for i in stalled], shards=1)
+        for i, o in zip(stalled, again):
+            touts[i] = o
+    for (p, spec, cls), out in zip(typed, touts):
+        ctx.cov["evaluations"] += 1
+        ctx.count("op:live")
+        line = "layout %s 0 %d %s" % (p, seed + 1, spec)
+        cell = "live:%s:other-content-type:%s" % (p, cls)
+        rep = {"kind": "failing-input", "op": line, "impl": out[:600], "variant": "asan", "harness": "props/C10/harness.c"}
+        f = fields(out) if "=" in out else {}
+        if out.startswith("FAULT") or not f:
+            ctx.violation(cell + ":harness", "harness error / crash %s [%s]" % (out[:80], line), rep); continue
+        if f.get("rc") != "1" or f.get("rs") != "1":
+            ctx.violation(cell + ":baseline", "handshake does not complete [%s] -> %s" % (line, out[:200]), rep); continue
+        napp = int(f.get("napp", "0"))
+        for side in ("accc", "accs"):
+            acc = f[side].split(":")
+            if int(acc[0]) > napp or acc[1] != "0":
+                key = "live:tls13_recv:non-appdata-inner-type-delivered" if p == "tls13" else "live:tls_recv:non-appdata-record-delivered-by-next-recv"
+                ctx.violation(key, "an authentic record of another content type than application data (%s) came out of the receive function as application data: %s deliveries for %d application messages, deviating=%s [%s] -> %s" % (spec, acc[0], napp, acc[1], line, out[:220]), rep)
+                break
+            if int(acc[0]) < napp:
+                ctx.violation(cell + ":application-data-lost", "application messages around a record of another content type did not all arrive (%s of %d) [%s] -> %s" % (acc[0], napp, line, out[:220]), rep)
+                break
+        else:
+            ctx.cell(cell + ":never-delivered")
+    # ---- every bit of the five header bytes of a protected application record, on the wire.  TLCP / TLS 1.2
+    # authenticate type, version and (through the MAC'd plaintext length and the framing) length: every flip must
+    # be noticed.  TLS 1.3 authenticates the length only: a flip in the outer type / version bytes may pass, but
+    # then exactly the sent data must arrive.
+    hcases = []
+    for p in protos:
+        for d in (0, 1):
+            lo = next((o for (pp, pl), o in zip(configs, louts) if pp == p and pl == "d"), "")
+            f = fields(lo) if "=" in lo else {}
+            if "c2s" not in f:
+                continue
+            lay = [f["c2s"].split(","), f["s2c"].split(",")]
+            i = len(lay[d]) - int(f.get("np", "2"))
+            for pos in range(5):
+                for bit in range(8):
+                    if thorough or d == 0 or bit % 2 == (pos % 2):
+                        hcases.append(("fault %s 0 %d flip %d %d %d %d 0 d" % (p, seed, d, i, pos, bit), "live:%s:header-bit:%s" % (p, ("type", "version-major", "version-minor", "length-hi", "length-lo")[pos]), p, pos))
+    houts, _ = core.run_lines(exe, [c[0] for c in hcases], shards=16)
+    stalled = [i for i, o in enumerate(houts) if "applied=0" in o and "pc=-99" in o and "ps=-99" in o]
+    if stalled:
+        again, _ = core.run_lines(exe, [hcases[i][0] for i in stalled], shards=1)
+        for i, o in zip(stalled, again):
+            houts[i] = o
+    for (line, cell, p, pos), out in zip(hcases, houts):
+        ctx.cov["evaluations"] += 1
+        ctx.count("op:live")
+        rep = {"kind": "failing-input", "op": line, "impl": out[:600], "variant": "asan", "harness": "props/C10/harness.c"}
+        if out.startswith("FAULT") or "=" not in out:
+            ctx.violation(cell + ":harness", "harness error / crash %s [%s]" % (out[:80], line), rep); continue
+        f = fields(out)
+        d = int(line.split()[5])
+        acc = f["accs" if d == 0 else "accc"].split(":")
+        np_ = int(f["np"])
+        if f["applied"] != "1":
+            ctx.violation(cell + ":fault-not-applied", "the proxy did not see the record to manipulate [%s] -> %s" % (line, out[:160]), rep); continue
+        if acc[1] != "0":
+            ctx.violation(cell + ":accepted-altered", "after a header bit of a protected record was flipped the receiver accepted data its peer did not send [%s] -> %s" % (line, out[:200]), rep)
+        elif int(acc[0]) == np_:
+            if p == "tls13" and pos < 3:
+                ctx.cell(cell + ":unauthenticated-byte:data-intact")
+            else:
+                ctx.violation(cell + ":fault-not-noticed", "all %d messages were accepted although an authenticated header bit was flipped [%s] -> %s" % (np_, line, out[:200]), rep)
+        else:
+            ctx.cell(cell + ":prefix-%s-of-%d" % (acc[0], np_))
     outs, _ = core.run_lines(exe, [c[0] for c in cases], shards=16)
+    # a handshake that did not even start its post-handshake phase although the fault concerns application records
+    # only (a stall of the endpoint threads on a loaded machine) is run once more, alone: a property of the
+    # library repeats (entropy and clock are scripted), a scheduling stall does not
+    stalled = [i for i, o in enumerate(outs) if "applied=0" in o and "pc=-99" in o and "ps=-99" in o]
+    if stalled:
+        again, _ = core.run_lines(exe, [cases[i][0] for i in stalled], shards=1)
+        for i, o in zip(stalled, again):
+            outs[i] = o
+        ctx.notes.append("%d live case(s) repeated alone after a stalled handshake" % len(stalled))
     for (line, cell), out in zip(cases, outs):
         ctx.cov["evaluations"] += 1
         ctx.count("op:live")
@@ -329,6 +448,8 @@ def oracle(line, a, b):
         return "unprotect reported a length larger than the ciphertext"
     if op in ("nb12", "nb13", "tr12", "tr13", "sq12", "sq13"):
         return None if a == "REJECTS-ALL" else "a mutated / misplaced record was accepted (%s)" % a
+    if op == "par":
+        return None if a.startswith("SAME ") else "protecting / unprotecting records on disjoint objects from several threads at once does not give the results of doing it one after the other (%s)" % a
     if a.startswith("ERR outlen=") and int(a.split("=")[1], 16) != 0:
         return "unprotect failed but left %s in *outlen; tls13_do_recv keeps it in conn->datalen" % a.split("=")[1]
     if a != b:
